@@ -117,7 +117,7 @@ fn cclient_path() -> String {
 }
 
 /// one request to the C client; `crash <signal|exit code>` if the process died on it
-fn c_request(req: &str) -> String {
+pub fn c_request(req: &str) -> String {
     let mut g = CPROC.lock().unwrap();
     if g.is_none() {
         let p = cclient_path();
